@@ -90,6 +90,28 @@ def cases(ctx):
                 count += 1
                 yield {"version": version, "steps": histories.dictionary_type_sweep(version, candidates[start:start + 20],
                                                                                     list(range(0, 57)))}
+    # "mode" messages (every internal type x payloads 0 / 1 / text, from the gateway and from a node) must not change how
+    # later reports are recorded: afterwards a NEW static-id node presents itself, presents a child, reports values,
+    # battery, sketch - and a known node reports - and the registry must hold all of it
+    from .. import spec as _spec
+
+    probes = ["7;255;0;0;17;2.0", "7;3;0;0;6;c", "7;3;1;0;0;5", "7;255;3;0;0;55", "7;255;3;0;11;s", "7;255;3;0;12;1",
+              "1;0;1;0;2;9", "8;255;0;1;18;2.1", "8;0;0;0;3;r", "8;0;1;0;2;1"]
+    for version in VERSIONS:
+        proto = _spec.pmap(version)
+        for t in range(0, _spec.INTERNAL_MAX[proto] + 2):
+            if t == _spec.I_VERSION:
+                continue
+            for sender in (0, 1):
+                for payload, ack in (("0", 0), ("1", 0), ("off", 1), ("", 0)):
+                    if not ctx.mine():
+                        continue
+                    count += 1
+                    steps = [["restore", 0, {"type": 18, "version": version, "children": {}}],
+                             ["restore", 1, {"type": 17, "version": "2.0", "children": {"0": [3, "c0", {}]}}],
+                             ["rx", f"{sender};255;3;{ack};{t};{payload}\n"]]
+                    steps += [["rx", probe + "\n"] for probe in probes]
+                    yield {"version": version, "steps": steps}
     ctx.exhaustive["type-table-and-scale-cases"] = count
     for i in range(ctx.pick(400, 20000) // ctx.shard_count):
         version = [None, *VERSIONS][i % 6]
